@@ -999,12 +999,14 @@ def check_hash_input_coverage(ck, R):
     # through a cache keyed by the code object alone)
     def_reads = []
     for st in outer.stmts():
-        for n in A.walk_local(st):
+        # (for a compound statement only its test is looked at here: the statements inside are visited on their own)
+        scope_ = [st.test] if isinstance(st, (ast.If, ast.While)) else ([] if isinstance(st, (ast.For, ast.With, ast.Try)) else [st])
+        for n in [x for sc_ in scope_ for x in A.walk_local(sc_)]:
             if (isinstance(n, ast.Attribute) and n.attr in FUNC_RELEVANT) or \
                     (isinstance(n, ast.Call) and A.call_attr(n) == "getattr" and len(n.args) >= 2 and A.const_str(n.args[1]) in FUNC_RELEVANT):
-                if isinstance(st, (ast.Assign, ast.Expr, ast.AugAssign, ast.AnnAssign, ast.Return)):
+                if isinstance(st, (ast.Assign, ast.Expr, ast.AugAssign, ast.AnnAssign, ast.Return, ast.If, ast.While)):
                     def_reads.append((A.const_str(n.args[1]) if isinstance(n, ast.Call) else n.attr, st))
-            elif isinstance(n, ast.Call) and isinstance(st, (ast.Assign, ast.Expr, ast.AugAssign, ast.AnnAssign, ast.Return)):
+            elif isinstance(n, ast.Call) and isinstance(st, (ast.Assign, ast.Expr, ast.AugAssign, ast.AnnAssign, ast.Return, ast.If, ast.While)):
                 for attr in FUNC_RELEVANT:
                     if _helper_reads_attr(outer, n, attr) is not None:
                         def_reads.append((attr, st))
